@@ -676,11 +676,10 @@ var closureIDs = map[*ssa.Function]int64{}
 
 func (fc *FnCtx) closureRef(c *Closure) *smt.Term {
 	// known function values are represented by a positive constant per function
-	name := "fn!" + smt.Ident(fc.P.FuncName(c.Fn))
+	name := "fn_" + smt.Ident(fc.P.FuncName(c.Fn))
 	if !fc.S.Declared(name) {
-		t := fc.S.Fresh(name, smt.Int)
-		fc.S.Assert(smt.Gt(t, smt.IntLit(0)), "")
-		return t
+		fc.S.DeclareFun(name, nil, smt.Int)
+		fc.S.Assert(smt.Gt(smt.Const(name, smt.Int), smt.IntLit(0)), "")
 	}
 	return smt.Const(name, smt.Int)
 }
